@@ -145,6 +145,8 @@ def gen_transformation(rnd):
     return {"kind": kind, "scope": scope}
 
 
+PRIOR_RULE = {"title": "prior", "logsource": {"category": "othercat", "product": "otherprod", "service": "othersvc"},
+              "detection": {"x": {"fieldA": "prior", "win.user|contains": "Prior*", "fieldB": 7}, "kw": ["priorkw"], "condition": "x or kw"}}
 PH_VARS = {"p": ["x", "y"], "q": ["only"]}
 LS = {"category": "cat", "product": "prod"}
 # hand-picked rules: every documented feature of every transformation is met at least once in every run
@@ -155,6 +157,7 @@ FIXED_RULES = [
     {"dets": {"sel": ["abc", "kw*2"], "flt": {"fieldA|fieldref": "fieldB", "fieldB": 5}}, "cond": "sel or flt", "logsource": LS},
     {"dets": {"sel": [{"fieldA": "abc"}, {"fieldB|endswith": ["foo", "Abc*"]}], "sel2": {"fieldA|cased": "Abc"}}, "cond": "1 of sel*", "logsource": LS},
     {"dets": {"sel": {"fieldA|all": ["abc", "foo"], "fieldB": None}}, "cond": "not sel", "logsource": LS},
+    {"dets": {"sel": {"fieldA|contains|all": "abc", "fieldB|all": ["abc"]}}, "cond": "sel", "logsource": LS},      # 'all' with a single value
 ]
 PH_RULES = [
     {"dets": {"sel": {"fieldA|expand": "a%p%b", "fieldB": "v"}}, "cond": "sel", "logsource": LS},
@@ -162,6 +165,7 @@ PH_RULES = [
     {"dets": {"sel": {"fieldA|re|m|s|expand": "^%p%$"}}, "cond": "not sel", "logsource": LS},
     {"dets": {"sel": {"fieldA|expand|all": ["%p%", "z"]}, "flt": {"fieldB|contains|expand": "%q%%p%"}}, "cond": "sel and not flt", "logsource": LS},
     {"dets": {"sel": {"fieldA|expand": ["%p%", "%q%", "lit"]}}, "cond": "sel", "logsource": LS},
+    {"dets": {"sel": {"fieldA|contains|all|expand": "%p%", "fieldB|expand|all": "a%p%"}}, "cond": "sel", "logsource": LS},   # 'all' with a single placeholder value
 ]
 NAMED_KINDS = ["map11", "map1n", "kw2field", "prefix", "suffix", "prefixmap", "drop", "addcond", "addcond_neg", "addcond_tpl",
                "replace", "replace_id", "mapstr", "mapstr_n", "mapstr_id", "case_lower", "case_upper", "setvalue", "convert_str",
@@ -172,12 +176,15 @@ def gen_cases(tier, seed, gen, effort):
     rnd = random.Random(seed * 8111 + 12)
     thorough = tier == "thorough"
     cases = [{"rule": gen_rule(rnd), "t": gen_transformation(rnd)} for _ in range((2500 if not thorough else 40000) * effort)]
+    for c in cases:
+        if rnd.random() < 0.25:
+            c["prior"] = True
     for r in FIXED_RULES:
         for k in NAMED_KINDS:
             for scope in (None, ("include", ["fieldA"]), ("exclude", ["fieldA", "win.image"])):
-                cases.append({"rule": copy.deepcopy(r), "t": {"kind": k, "scope": scope}})
+                cases.append({"rule": copy.deepcopy(r), "t": {"kind": k, "scope": scope}, "prior": k.startswith("addcond") or k == "nest"})
     for r in PH_RULES:
-        for k in ("ph_value", "ph_wild"):
+        for k in ("ph_value", "ph_wild", "ph_value_nest"):
             if k == "ph_wild" and "|re" in repr(r["dets"]):
                 continue      # a wildcard inside a regular expression has no documented rewrite (C17 judges only that no raw placeholder is emitted)
             cases.append({"rule": copy.deepcopy(r), "t": {"kind": k, "scope": None}})
@@ -221,6 +228,7 @@ def t_yaml(t):
         "ph_id": {"type": "wildcard_placeholders", "include": ["nosuchplaceholder"]},
         "ph_value": {"type": "value_placeholders", "include": ["p"]},
         "ph_wild": {"type": "wildcard_placeholders", "include": ["p"]},
+        "ph_value_nest": {"type": "nest", "items": [{"type": "value_placeholders", "include": ["p"]}]},     # a nested item sees the pipeline's variables
         "add_field": {"type": "add_field", "field": ["extra", "fieldA"]},
         "remove_field": {"type": "remove_field", "field": ["fieldA", "nosuchfield", "fieldA"]},
         "set_field": {"type": "set_field", "fields": ["only.this"]},
@@ -457,8 +465,8 @@ def rewrite_rule(case):
     k = t["kind"]
     dets = []
     cond = case["rule"]["cond"]
-    if k in ("ph_value", "ph_wild"):      # read by the rule semantics with the item as context: the document stays
-        if k == "ph_value" and "|re" in repr(case["rule"]["dets"]):
+    if k in ("ph_value", "ph_wild", "ph_value_nest"):      # read by the rule semantics with the item as context: the document stays
+        if k in ("ph_value", "ph_value_nest") and "|re" in repr(case["rule"]["dets"]):
             return {"dets": [(nm, det_json(subst_regex(d))) for nm, d in case["rule"]["dets"].items()], "cond": cond, "fields": list(case["rule"].get("fields", []))}
         return {"dets": [(nm, det_json(d)) for nm, d in case["rule"]["dets"].items()], "cond": cond, "fields": list(case["rule"].get("fields", []))}
     for nm, d in case["rule"]["dets"].items():
@@ -641,7 +649,13 @@ def run_impl(case):
     try:
         pl = ProcessingPipeline.from_dict({"name": "p", "priority": 1, "vars": PH_VARS, "transformations": [t_yaml(case["t"])]})
         coll = SigmaCollection.from_dicts([rule_dict(case)])
-        qs = qsyntax.make_backend(CFG)(pl).convert(coll)
+        backend = qsyntax.make_backend(CFG)(pl)
+        if case.get("prior"):     # the same backend / pipeline object converted another rule (other log source, other values) before
+            try:
+                backend.convert(SigmaCollection.from_dicts([copy.deepcopy(PRIOR_RULE)]))
+            except Exception:
+                pass
+        qs = backend.convert(coll)
         fields = [str(f) for f in coll.rules[0].fields]      # the pipeline ran on the rule object of the collection
         ref = None
         if case["t"]["kind"] in ("replace_id", "mapstr_id", "map_empty", "ph_id", "scope_none"):
@@ -667,14 +681,14 @@ def make_request(case, impl, gen):
     r = {"op": "rewrite.case", "dets": [{"name": cps(n), "det": det_json(d)} for n, d in rule["dets"].items()],
          "conds": [cps(rule["cond"])], "fields": [cps(f) for f in rule.get("fields", [])],
          "tr": tr_desc(t_yaml(case["t"]), rule), "cfg": {"prec": CFG["prec"], "nativeCidr": True}, "wordChars": [], "queries": qs}
-    if case["t"]["kind"] == "ph_value" and "|re" in repr(rule["dets"]):
+    if case["t"]["kind"] in ("ph_value", "ph_value_nest") and "|re" in repr(rule["dets"]):
         # regular expressions: the documented rewrite is done by hand here (every placeholder replaced by each value of its
         # variable, all combinations, as alternatives; modifiers - the flags - stay): the Lean semantics reads the result
         r["dets"] = [{"name": cps(n), "det": det_json(subst_regex(d))} for n, d in rule["dets"].items()]
         return r
-    if case["t"]["kind"] in ("ph_value", "ph_wild"):
+    if case["t"]["kind"] in ("ph_value", "ph_wild", "ph_value_nest"):
         # placeholder expansion is read by the Lean rule semantics (Spec/Rule, Spec/Placeholder): the item and the variables are its context
-        r["phItems"] = [{"kind": "value" if case["t"]["kind"] == "ph_value" else "wildcard", "include": [cps("p")], "exclude": None,
+        r["phItems"] = [{"kind": "wildcard" if case["t"]["kind"] == "ph_wild" else "value", "include": [cps("p")], "exclude": None,
                          "expr": cps(qsyntax.QX_EXPR), "mapping": []}]
         r["vars"] = [[cps(k), [{"text": cps(str(x))} for x in v]] for k, v in PH_VARS.items()]
     return r
@@ -751,7 +765,7 @@ def _null_keyword(case, impl):
 def judge(case, impl, reply):
     io = impl["outcome"]
     k = case["t"]["kind"]
-    key = (case["rule"], case["t"])
+    key = (case["rule"], case["t"], case.get("prior"))
     tags = [f"kind:{k}", f"impl:{io.split(':')[0]}", f"scope:{case['t']['scope'][0] if case['t']['scope'] else 'none'}"]
     fid = "D3" if _d3(case) else ("D35" if (k in ("replace", "replace_id") and _has_number(case["rule"]["dets"])) else None)
     if io.startswith("other:"):
